@@ -4,6 +4,20 @@ import re
 
 PROPS = {}
 
+# stated bounds of the replay enumerators (used as bounded stand-in / bounded cross-check; never counted as proved)
+REPLAY_BOUNDS = {
+    'bdd': 'straight-line programs of RobddBuilder operations over 3 variables: all binary ops on all pairs of literals followed by cond/exists/neg/compose/semhash, x all 6 variable orders x both cache kinds (7776 programs), plus 3000 seeded random programs of 7-16 operations; truth tables by walking the nodes',
+    'table': 'BackedRobinhoodTable with capacity 4 and 8: every sequence of <= 4 (cap 4) / <= 3 (cap 8) insertions with hashes in 0..2*cap followed by re-requesting each element, plus 200 seeded random sequences of 12 insertions',
+    'lru': 'Lru<u32,u32> with initial capacity 2 or 4: 3000 seeded random insert/get sequences (up to 64 operations, up to 15 keys, colliding hashes, frequent overwrites, final read-back)',
+    'ff': 'FiniteField over all 7 exported primes: 12 residues (0,1,2,3,P/2,P/2+1,P-2,P-1 and 4 seeded random) in all pairs (x3 third operands for the ternary laws), 9 operations/laws',
+    'lattice': 'RealSemiring on a 9-value grid (signed zeros, infinities), ExpectedUtility on an 8-pair grid incl. incomparable pairs, all triples; Boolean semiring exhaustively',
+    'dnnf': 'top-down compilation + conditioning: 6 CNFs over 3 variables x 6 orders x {diagram, negation} x 3 labels x 2 values, plus 400 seeded random CNFs over 4 variables',
+    'cnf': 'Cnf::eval / is_sat_partial on 7 clause lists (incl. empty list, empty clause, duplicate and complementary literals) x all total and one-hole partial assignments of 3 variables; 300 seeded random PartialModel set/unset sequences',
+    'order': 'VarOrder::new on every permutation of 0..4 variables, each extended 0-2 times with new_last',
+    'compile': 'compile_cnf / collapse_clauses on 8 fixed clause lists x 6 orders and 600 seeded random CNFs; compile_logical_expr / compile_plan on 600 seeded random expressions of depth <= 4 over 3 variables',
+    'poly': 'Polynomial<FiniteField<U32_TINY>>: 403 pairs of polynomials with 0..33 coefficients (seeded random), + and * against the schoolbook definition',
+}
+
 
 def prop(pid, **kw):
     PROPS[pid] = kw
